@@ -1033,10 +1033,17 @@ Proof.
   - inversion Hf. reflexivity.
 Qed.
 
-Lemma fire_end_tb cfg a s k S o c : fire cfg s k = (S, o, HEnd c) -> TB a s -> TB a S.
+Lemma finish_obj_connect_cases s g : gw_connect (finish_obj s g) = gw_connect s \/ gw_connect (finish_obj s g) = None.
+Proof.
+  unfold finish_obj. destruct (gw_objs s !! g) as [t|]; [|left; reflexivity]. destruct t; cbn; auto.
+Qed.
+
+Lemma fire_end_tb cfg a s k S o c :
+  fire cfg s k = (S, o, HEnd c) -> TB a s -> TB a S /\ (gw_connect s = None -> gw_connect S = None).
 Proof.
   unfold fire. intros Hf Hb. destruct k as [g|g|g|p|p].
-  - destruct (gw_objs s !! g); inversion Hf; subst. apply finish_obj_tb, Hb.
+  - destruct (gw_objs s !! g); inversion Hf; subst. split; [apply finish_obj_tb, Hb|].
+    intros Hn. destruct (finish_obj_connect_cases s g) as [E|E]; congruence.
   - destruct (gw_objs s !! g); inversion Hf.
   - destruct (gw_objs s !! g) as [t|]; [|inversion Hf].
     destruct t as [| | |mid qos st data snpub n]; try (inversion Hf; fail).
@@ -1071,7 +1078,7 @@ Lemma fire_step cfg PF B L U t0 s tm :
   no_end (outs_of (fire cfg (pre s tm) (tm_kind tm))) /\
   match fire cfg (pre s tm) (tm_kind tm) with
   | (s1, o, HOk) => TI cfg PF B L U (tm_at tm) s1 /\ gw_connect s1 = gw_connect s
-  | (s1, o, HEnd c) => TB (tm_at tm) s1
+  | (s1, o, HEnd c) => TB (tm_at tm) s1 /\ (gw_connect s = None -> gw_connect s1 = None)
   end.
 Proof.
   intros H Hm. apply min_timer_spec in Hm. destruct Hm as [Hin Hmin].
@@ -1091,7 +1098,7 @@ Proof.
   - intros te Ho. apply fire_outs in Ho. destruct Ho as [(t & dg & E)|(m' & E & _)]; discriminate E.
   - assert (Hb : TB (tm_at tm) (pre s tm)).
     { destruct H. repeat split; cbn; try assumption; lia. }
-    destruct (fire cfg (pre s tm) (tm_kind tm)) as [[S o] [|c]] eqn:Hf; [|eapply fire_end_tb; eassumption].
+    destruct (fire cfg (pre s tm) (tm_kind tm)) as [[S o] [|c]] eqn:Hf; [|exact (fire_end_tb cfg _ _ _ _ _ _ Hf Hb)].
     destruct (tm_kind tm) as [g|g|g|p|p] eqn:Hk.
     + (* a stale connect timer *)
       unfold fire in Hf. change (gw_objs (pre s tm)) with (gw_objs s) in Hf.
@@ -1139,6 +1146,7 @@ Qed.
 Definition RT (cfg : gw_cfg) (PF : Prop) (B L : N) (U : option N) (s : gw_state) (t : N)
            (s' : gw_state) (o : list gw_out) : Prop :=
   gw_now s <= gw_now s' /\ gw_now s' <= t /\ mq_bound cfg PF L U o /\
+  (gw_connect s = None -> gw_connect s' = None) /\
   ( (gw_ended s' = true /\ exists te, In (OutEnd te) o /\ te <= t /\ (gw_connect s <> None -> te <= B))
   \/ (no_end o /\ gw_ended s' = false /\ exists te, gw_ending s' = Some te /\ gw_now s' <= te <= gw_now s' + 100 /\
         (gw_connect s <> None -> te <= B))
@@ -1152,10 +1160,10 @@ Lemma run_timers_spec cfg PF B L U t fuel : forall s t0,
   RT cfg PF B L U s t (fst (run_timers fuel cfg s t)) (snd (run_timers fuel cfg s t)).
 Proof.
   induction fuel as [|fuel IH]; intros s t0 H Ht; pose proof (ti_now _ _ _ _ _ _ _ H) as Hnow.
-  { cbn. unfold RT. rewrite Hnow. split; [lia|]. split; [exact Ht|]. split; [apply mq_bound_nil|].
+  { cbn. unfold RT. rewrite Hnow. split; [lia|]. split; [exact Ht|]. split; [apply mq_bound_nil|]. split; [auto|].
     right. right. split; [apply no_end_nil|]. split; [exact H|auto]. }
   assert (Hstay : RT cfg PF B L U s t s []).
-  { unfold RT. rewrite Hnow. split; [lia|]. split; [exact Ht|]. split; [apply mq_bound_nil|].
+  { unfold RT. rewrite Hnow. split; [lia|]. split; [exact Ht|]. split; [apply mq_bound_nil|]. split; [auto|].
     right. right. split; [apply no_end_nil|]. split; [exact H|auto]. }
   cbn [run_timers]. rewrite (ti_ending _ _ _ _ _ _ _ H).
   destruct (min_timer (gw_timers s)) as [tm|] eqn:Hm; [|exact Hstay].
@@ -1168,27 +1176,31 @@ Proof.
   - destruct Hres as [HS Hc].
     specialize (IH S (tm_at tm) HS Hdue). pose proof (ti_now _ _ _ _ _ _ _ HS) as HnowS.
     destruct (run_timers fuel cfg S t) as [s2 o2]. cbn [fst snd] in *.
-    destruct IH as (I1 & I2 & I3 & I4). unfold RT. split; [lia|]. split; [exact I2|].
-    split; [apply mq_bound_app; assumption|]. rewrite Hc in I4.
+    destruct IH as (I1 & I2 & I3 & I5 & I4). unfold RT. split; [lia|]. split; [exact I2|].
+    split; [apply mq_bound_app; assumption|]. rewrite Hc in I4, I5. split; [exact I5|].
     destruct I4 as [(E1 & te & E2 & E3 & E4)|[(E0 & E1 & te & E2 & E3 & E4)|(E0 & E1 & E2)]].
     + left. split; [exact E1|]. exists te. split; [apply in_or_app; right; exact E2|]. split; assumption.
-    + right. left. split; [apply no_end_app; assumption|]. split; [exact E1|]. exists te. split; [exact E2|]. split; [exact E3|exact E4].
+    + right. left. split; [apply no_end_app; assumption|]. split; [exact E1|]. exists te.
+      split; [exact E2|]. split; [exact E3|exact E4].
     + right. right. split; [apply no_end_app; assumption|]. split; assumption.
-  - destruct (begin_end_spec (tm_at tm) S c false false Hres) as (B1 & B2 & B3 & B4 & te & B5 & B6).
+  - destruct Hres as [Hres Hcn].
+    destruct (begin_end_spec (tm_at tm) S c false false Hres) as (B1 & B2 & B3 & B4 & te & B5 & B6).
     destruct (begin_end_quiet cfg PF L U S c false false) as [Q1 Q2].
     destruct (begin_end S c false false) as [s1 o1]. cbn [fst snd] in *.
     assert (HteB : gw_connect s <> None -> te <= B).
-    { intros Hcn. destruct (gw_connect s) as [g|] eqn:Hg; [|congruence].
+    { intros Hcn'. destruct (gw_connect s) as [g|] eqn:Hg; [|congruence].
       destruct (ti_conn _ _ _ _ _ _ _ H g Hg) as (_ & _ & tmc & C1 & C2 & C3). specialize (Hmin tmc C1). lia. }
+    assert (Hcn1 : gw_connect s = None -> gw_connect s1 = None) by (intros E; rewrite B3; apply Hcn, E).
     destruct fuel as [|fuel'].
     + cbn [run_timers fst snd]. rewrite app_nil_r. unfold RT. split; [lia|]. split; [lia|].
-      split; [apply mq_bound_app; assumption|]. right. left. split; [apply no_end_app; assumption|].
+      split; [apply mq_bound_app; assumption|]. split; [exact Hcn1|]. right. left. split; [apply no_end_app; assumption|].
       split; [exact B1|]. exists te. split; [exact B5|]. split; [lia|exact HteB].
     + cbn [run_timers]. rewrite B5. destruct (te <=? t) eqn:Hte.
       * apply N.leb_le in Hte. cbn [fst snd]. unfold RT. cbn. split; [lia|]. split; [exact Hte|].
         split; [apply mq_bound_app; [apply mq_bound_app; assumption|intros _ tau m [E|[]]; discriminate E]|].
+        split; [exact Hcn1|].
         left. split; [reflexivity|]. exists te. split; [apply in_or_app; right; left; reflexivity|]. split; assumption.
       * cbn [fst snd]. rewrite app_nil_r. unfold RT. split; [lia|]. split; [lia|].
-        split; [apply mq_bound_app; assumption|]. right. left. split; [apply no_end_app; assumption|].
+        split; [apply mq_bound_app; assumption|]. split; [exact Hcn1|]. right. left. split; [apply no_end_app; assumption|].
         split; [exact B1|]. exists te. split; [exact B5|]. split; [lia|exact HteB].
 Qed.
